@@ -209,7 +209,7 @@ theorem frame_list_step (W : World) (f : Nat) (ih : FrameAt W f) :
       split at h
       · exact ih.list _ _ _ _ _ hs h
       · -- the state after the v-once bookkeeping
-        generalize hst2 : (if (hasAttr attrs (S "v-once") && !hasAttr attrs (S "v-for")) = true then
+        generalize hst2 : (if onceHereOf attrs = true then
             ({ st with seen := st.seen ++ [getAttr attrs (S "v-once-id")] } : St) else st) = st2 at h
         have hf2 : Frame st st2 := by
           rw [← hst2]; split
@@ -231,10 +231,15 @@ theorem frame_list_step (W : World) (f : Nat) (ih : FrameAt W f) :
               · obtain ⟨ps, h1, hk⟩ := bindE_ok h
                 split at hk
                 · exact hf2.trans (ih.list _ _ _ _ _ hs2 hk)
-                · obtain ⟨res, st1, h2, hk2⟩ := bindR_ok hk
-                  obtain ⟨o, ho, _⟩ := prepend_ok hk2
-                  have f1 := ih.asElem _ _ _ _ _ _ _ hs2 h2
-                  exact hf2.trans (f1.trans (ih.list _ _ _ _ _ (f1.1.nonempty hs2) ho))
+                · split at hk
+                  · exact hf2.trans (ih.list _ _ _ _ _ hs2 hk)
+                  · rename_i st3 hg
+                    have fg := onceGate_frame hg
+                    obtain ⟨res, st1, h2, hk2⟩ := bindR_ok hk
+                    obtain ⟨o, ho, _⟩ := prepend_ok hk2
+                    have hs3 := fg.1.nonempty hs2
+                    have f1 := ih.asElem _ _ _ _ _ _ _ hs3 h2
+                    exact hf2.trans (fg.trans (f1.trans (ih.list _ _ _ _ _ (f1.1.nonempty hs3) ho)))
                 · split at hk
                   · split at hk
                     · exact hf2.trans (ih.list _ _ _ _ _ hs2 hk)
